@@ -2,11 +2,15 @@
 //! loop (persistent session per framing, so the MBAP transaction id advances from case to case) and
 //! the bytes it writes are captured. No reply is ever delivered.
 //! args:        [--decode min|max]
-//! input line:  F K U S C V        (see clientdrv::parse_case)
+//! input line:  F K U S C V        (see clientdrv::parse_case; F = T|R, optionally followed by the
+//!              submit style: none = Channel futures, c = CallbackSession, x = FfiChannel)
 //! output line: <result> <wire>
 //!   result: SENT (transmitted, then ResponseTimeout) | OK? | <flat error name> | PANIC | BADLINE
+//!           style x, synchronous call failed: <ChannelFull|ChannelClosed|range error>/<cb> where <cb>
+//!           is the flat error name the callback received, `-` if it was not invoked
+//!           styles c/x: LOST (callback dropped uncalled) | HUNG (no callback within 3 s)
 //!   wire:   uppercase hex of each write joined by '+', '-' if nothing was written
-use crate::clientdrv::{self as drv, Build, Case, Driver};
+use crate::clientdrv::{self as drv, Build, Case, Done, Driver};
 use rodbus::RequestError;
 
 async fn one(driver: &mut Driver, case: &Case) -> String {
@@ -18,7 +22,7 @@ async fn one(driver: &mut Driver, case: &Case) -> String {
     let sess = driver.session(case).await;
     let wire = sess.wire.clone();
     wire.take_out();
-    let handle = drv::submit(sess.channel.clone(), drv::param(case), prepared);
+    let handle = drv::submit(sess.channel.clone(), drv::param(case), prepared, case.style);
     let res = handle.await;
     let session_panicked = driver.after_case(case.rtu, false).await;
     let out = drv::format_writes(&wire.take_out());
@@ -26,9 +30,11 @@ async fn one(driver: &mut Driver, case: &Case) -> String {
         _ if session_panicked => "PANIC".to_string(),
         Err(e) if e.is_panic() => "PANIC".to_string(),
         Err(_) => "CANCELLED".to_string(),
-        Ok(Ok(_)) => "OK?".to_string(),
-        Ok(Err(RequestError::ResponseTimeout)) => "SENT".to_string(),
-        Ok(Err(e)) => drv::request_err(e),
+        Ok(Done::Result(Err(RequestError::ResponseTimeout))) => "SENT".to_string(),
+        Ok(d) => match drv::done_result(d) {
+            Ok(_) => "OK?".to_string(),
+            Err(token) => token,
+        },
     };
     format!("{result} {out}")
 }
